@@ -705,6 +705,11 @@ def rule_f(ctx: Context, R: Reporter):
 
 
 # ------------------------------------------------------------------ C07.g
+def _is_user_like_arg(e: ast.AST) -> bool:
+    d = dotted(e) if isinstance(e, (ast.Attribute, ast.Name)) else ""
+    return d.endswith("config.log_likelihood")
+
+
 REWRITERS = {"nan_to_num", "clip", "where", "maximum", "minimum", "fmax", "fmin", "abs", "absolute", "round", "around", "rint", "floor", "ceil", "sign", "nanmax", "nanmin", "sort", "cumsum"}
 
 
@@ -748,7 +753,13 @@ def rule_g(ctx: Context, R: Reporter):
                 # is the converted value the likelihood result (by tag of the assigned name or of the operand)?
                 st = at.stmt if at is not None else None
                 lhs_tag = name_tag(st.targets[0].id) if isinstance(st, ast.Assign) and isinstance(st.targets[0], ast.Name) else None
-                if lhs_tag != "logl" and not (tgt is not None and tg.tag(tgt, at) == "logl"):
+                raw_results = False
+                if isinstance(tgt, ast.Name) and at is not None:
+                    # the list of raw per-point results of the user's function (log-likelihood first, blobs after it)
+                    for d_ in flow.reaching(at, tgt.id):
+                        if d_.value is not None and any(isinstance(x, ast.Call) and (any(_is_user_like_arg(a_) for a_ in x.args)) for x in ast.walk(d_.value)):
+                            raw_results = True
+                if lhs_tag != "logl" and not (tgt is not None and tg.tag(tgt, at) == "logl") and not raw_results:
                     continue
                 dtxt = norm_text(dt)
                 if dtxt in ("float", "np.float64", "numpy.float64", "'float64'", "'f8'", "np.double", "'float'", "np.longdouble", "np.float128"):
@@ -916,7 +927,65 @@ def rule_i(ctx: Context, R: Reporter):
     R.floor("C07.i", "configuration constructions with a likelihood", n, 1)
 
 
+def rule_k(ctx: Context, R: Reporter):
+    """C07.k  the binding wrapper is a transparent pass-through: every return of its __call__ is the call
+    f(x, *args, **kwargs) itself, with x the wrapper's own argument -- no test of the returned value (a zero
+    log-likelihood is falsy), no substitution, no reused scratch buffer handed to the user function (blobs that
+    are views of their input would alias it), no attribute of the wrapper written during a call."""
+    wrappers = [c for c in ctx.prog.classes.values() if "__call__" in c.methods and any(
+        isinstance(x, ast.Call) and any(isinstance(y, ast.Starred) for y in x.args) and any(k.arg is None for k in x.keywords) for x in ast.walk(c.methods["__call__"].node))]
+    if not wrappers:
+        raise AnalysisError("C07.k: binding wrapper not found")
+    for w in wrappers:
+        m = w.methods["__call__"]
+        xparam = [p for p in m.params if p != "self"][0]
+        fl = flow_of(m.node)
+        fwd = [x for x in ast.walk(m.node) if isinstance(x, ast.Call) and any(isinstance(y, ast.Starred) for y in x.args) and any(k.arg is None for k in x.keywords)]
+        n_ret = 0
+        for r in walk_no_nested(m.node):
+            if not isinstance(r, ast.Return):
+                continue
+            n_ret += 1
+            v = r.value
+            if isinstance(v, ast.Name):
+                ds = fl.reaching(fl.node_containing(r), v.id)
+                if len(ds) == 1 and ds[0].kind == "assign" and not ds[0].path:
+                    v = ds[0].value
+            ok = v in fwd
+            R.check("C07.k", f"{m.short} returns what the user's function returned", ok, m, r,
+                    msg=f"{m.short}: `{unparse(r)[:60]}` is not the forwarded call itself: the value the sampler stores as log-likelihood (and blobs) is no longer what the user's function "
+                        f"returned at that point (e.g. a truthiness test turns an exact 0.0 into -inf)", key=f"wrapper-return:{norm_text(r.value)[:40] if r.value is not None else 'None'}")
+        for c in fwd:
+            a0 = c.args[0] if c.args and not isinstance(c.args[0], ast.Starred) else None
+            ok = isinstance(a0, ast.Name) and a0.id == xparam and all(d.kind == "param" for d in fl.reaching(fl.node_containing(c), xparam))
+            R.check("C07.k", f"{m.short} hands its own argument to the user's function", ok, m, c,
+                    msg=f"{m.short}: the user's function receives `{unparse(a0) if a0 is not None else '?'}` instead of the point it was called with: a converted / reused buffer is "
+                        f"shared between calls, so anything the function returns that refers to its input (blobs as views) is overwritten by the next evaluation", key="wrapper-argument")
+        conds = [n_ for n_ in fl.cfg.stmt_nodes() if n_.kind == "test"]
+        R.check("C07.k", f"{m.short} does not branch", not conds, m, conds[0].ast if conds else m.node,
+                msg=f"{m.short}: branches on `{unparse(conds[0].ast)[:50] if conds else ''}`: the wrapper must be transparent", key="wrapper-branch")
+        # stateless: no attribute written outside the constructor / unpickling hooks
+        writers = []
+        for mm in w.methods.values():
+            if mm.name in ("__init__", "__setstate__", "__getstate__", "__reduce__"):
+                continue
+            for x in walk_no_nested(mm.node):
+                tg = x.targets if isinstance(x, ast.Assign) else ([x.target] if isinstance(x, (ast.AugAssign, ast.AnnAssign)) else [])
+                for t in tg:
+                    for tt in (t.elts if isinstance(t, (ast.Tuple, ast.List)) else [t]):
+                        b = tt
+                        while isinstance(b, ast.Subscript):
+                            b = b.value
+                        if isinstance(b, ast.Attribute) and isinstance(b.value, ast.Name) and b.value.id == "self":
+                            writers.append((mm, x))
+        R.check("C07.k", f"{w.name} keeps no state between calls", not writers, writers[0][0] if writers else m, writers[0][1] if writers else m.node,
+                msg=f"{writers[0][0].short if writers else ''}: `{unparse(writers[0][1])[:50] if writers else ''}` stores state on the wrapper during evaluation: results of one call can "
+                    f"depend on (or alias) another call's data, and differ between serial and pooled evaluation", key="wrapper-stateless")
+        R.floor("C07.k", "returns of the wrapper's __call__", n_ret, 1)
+
+
 def run(ctx: Context, R: Reporter):
+    R.guard(rule_k, ctx, R)
     R.guard(rule_i, ctx, R)
     R.guard(rule_j, ctx, R)
     R.guard(rule_a, ctx, R)
@@ -958,6 +1027,8 @@ def variants():
         Variant("f-writeback-omits-x", "bad", edit(mu, "Mutator.run", _merge_writebacks(("u", "logl", "blobs"))), ["C07.f"]),
         Variant("g-nan-to-num-kernel", "bad", insert_before(mc, "BaseMCMCRunner._evaluate_likelihood", "self.n_calls += self.n_walkers", "logl_prime = np.nan_to_num(logl_prime)"), ["C07.g"], quick=True),
         Variant("g-nan-to-num-wrapper", "bad", replace_expr(core, "SamplerCore._log_like", "(self.config.log_likelihood(x), None)", "(np.nan_to_num(self.config.log_likelihood(x), nan=-np.inf), None)"), ["C07.g"]),
+        Variant("k-zero-is-falsy", "bad", replace_stmt("tempest/tools.py", "FunctionWrapper.__call__", "return self.f(x, *self.args, **self.kwargs)", "value = self.f(x, *self.args, **self.kwargs)\nif not value:\n    return -np.inf\nreturn value"), ["C07.k"], quick=True),
+        Variant("k-benign-bound-result", "benign", replace_stmt("tempest/tools.py", "FunctionWrapper.__call__", "return self.f(x, *self.args, **self.kwargs)", "value = self.f(x, *self.args, **self.kwargs)\nreturn value")),
         Variant("i-kwargs-dropped", "bad", replace_expr("tempest/sampler.py", "Sampler.__init__", "FunctionWrapper(log_likelihood, log_likelihood_args, log_likelihood_kwargs)", "FunctionWrapper(log_likelihood, log_likelihood_args, None)"), ["C07.i"], quick=True),
         Variant("i-bare-when-no-args", "bad", replace_expr("tempest/sampler.py", "Sampler.__init__", "FunctionWrapper(log_likelihood, log_likelihood_args, log_likelihood_kwargs)", "FunctionWrapper(log_likelihood, log_likelihood_args, log_likelihood_kwargs) if log_likelihood_args else log_likelihood"), ["C07.i", "ANALYSIS-ERROR"]),
         Variant("j-posterior-blobs-unguarded", "bad", replace_expr(core, "SamplerCore.compute_posterior", "self.config.blobs_dtype is not None", "return_blobs"), ["C07.j"], quick=True),
